@@ -70,6 +70,11 @@ FLAVOURS = {
     "tls13-auth": dict(v="tls13", reqCert=True, ccred="c_rsa"),
     "tls13-hrr": dict(v="tls13", hrr=True),
     "tls13-nocomp": dict(v="tls13", nocomp=True, cred="ecdsa"),
+    "tls13-psk": dict(v="tls13", tickets=True, resume=True),
+    "tls12-resume-sid": dict(v="tls12", kx=["ecdhe_rsa"], resume=True,
+                             cache=True),
+    "tls12-resume-ticket": dict(v="tls12", kx=["rsa"], tickets=True,
+                                resume=True),
     "any": dict(v=None),
 }
 FL_NAMES = sorted(FLAVOURS)
@@ -124,6 +129,20 @@ def opts_for(name):
                                 bytearray(b"http/1.1")]
     if f.get("sni"):
         client["serverName"] = f["sni"]
+    if f.get("resume"):
+        # a fresh original connection for every case (a failed resumption
+        # invalidates the session object)
+        if f.get("cache"):
+            from tlslite.api import SessionCache
+            server["sessionCache"] = SessionCache()
+        DET.reseed("C08-prior", name)
+        p0 = sc.connect(dict(client), dict(server))
+        if not p0.both_ok:
+            raise BaselineBroken("flavour-prior:" + name,
+                                 "%r %r" % (p0.co, p0.so))
+        sc.do_write(p0, "s", b"x")
+        sc.read_all(p0, "c")
+        client["session"] = p0.c.session
     return client, server
 
 
@@ -299,6 +318,23 @@ def mutate_ext(data, m):
         exts.append((known[m[3] % len(known)], prg(b"k", m[3] % 7)))
     elif op == "only":
         exts = [exts[i]]
+    elif op == "typed":
+        # a well-framed extension built by the library's own writer from
+        # drawn (boundary-biased, possibly empty) field values replaces the
+        # extension of the same type, or is appended
+        from props import c15
+        try:
+            eb, _ = c15.ext_bytes(m[3])
+        except ValueError:
+            return None
+        et = int.from_bytes(eb[0:2], "big")
+        new = (et, bytes(eb[4:]))
+        for j, (t0, _) in enumerate(exts):
+            if t0 == et:
+                exts[j] = new
+                break
+        else:
+            exts.append(new)
     else:
         raise HarnessError(op)
     if t == 1:
@@ -526,6 +562,41 @@ EXT_OPS = ["empty", "trunc", "extend", "dup", "remove", "garbage", "inner0",
            "innerlen", "add_unknown", "add_known", "only"]
 
 
+@st.composite
+def typed_spec(draw):
+    """C15's extension specs, with sizes biased to the empty / minimal
+    values that framing alone does not reject."""
+    from props import c15
+    z = st.sampled_from([0, 0, 1, 32])
+    k = draw(st.sampled_from(["psk", "psk", "keyshare_c", "keyshare_s",
+                              "alpn", "sni", "cookie", "psk_modes",
+                              "c15"]))
+    if k == "psk":
+        n = draw(st.integers(1, 3))
+        return [k, [[draw(z), draw(st.sampled_from([0, 1, 2 ** 32 - 1]))]
+                    for _ in range(n)],
+                [draw(z) for _ in range(draw(st.integers(1, 3)))]]
+    if k == "keyshare_c":
+        return [k, draw(st.lists(st.tuples(st.sampled_from(
+            [23, 24, 29, 30, 256, 0, 0xffff]), st.sampled_from(
+                [0, 1, 32, 65])).map(list), max_size=3))]
+    if k == "keyshare_s":
+        return [k, [draw(st.sampled_from([23, 24, 29, 256, 0])),
+                    draw(st.sampled_from([0, 1, 32, 65]))]]
+    if k == "alpn":
+        return [k, draw(st.lists(st.sampled_from([0, 1, 2, 8]), max_size=3))]
+    if k == "sni":
+        return [k, draw(st.lists(st.tuples(st.sampled_from([0, 1]),
+                                           st.sampled_from([0, 1, 11])
+                                           ).map(list), max_size=2))]
+    if k == "cookie":
+        return [k, draw(st.sampled_from([0, 1, 32]))]
+    if k == "psk_modes":
+        return [k, draw(st.lists(st.sampled_from([0, 1, 2, 255]),
+                                 max_size=3))]
+    return draw(c15.ext_spec())
+
+
 def mut_strategy():
     i = st.integers(0, 4000)
     return st.one_of(
@@ -545,6 +616,8 @@ def mut_strategy():
             st.integers(0, 2)),
         st.tuples(st.just("ext"), st.sampled_from(EXT_OPS), i, i),
         st.tuples(st.just("ext"), st.sampled_from(EXT_OPS), i, i),
+        st.tuples(st.just("ext"), st.just("typed"), st.just(0),
+                  typed_spec()),
     ).map(list)
 
 
@@ -609,6 +682,18 @@ REGRESSIONS = [
 ]
 
 
+TYPED_FIXED = [
+    ["psk", [[0, 0]], [32]], ["psk", [[16, 0]], [0]],
+    ["psk", [[16, 0], [16, 0]], [32]], ["psk", [[16, 0]], [32, 32]],
+    ["keyshare_c", []], ["keyshare_c", [[29, 0]]], ["keyshare_c", [[256, 32]]],
+    ["keyshare_c", [[29, 32], [29, 32]]], ["keyshare_s", [29, 0]],
+    ["keyshare_s", [256, 32]], ["keyshare_s", [24, 32]],
+    ["alpn", []], ["alpn", [0]], ["sni", []], ["sni", [[0, 0]]],
+    ["cookie", 0], ["psk_modes", []], ["psk_modes", [255]],
+    ["psk_srv", 0], ["psk_srv", 1], ["psk_srv", 0xffff],
+]
+
+
 def explicit(tier, seed):
     """Every message of every flavour x a fixed mutation set."""
     for c in REGRESSIONS:
@@ -630,3 +715,7 @@ def explicit(tier, seed):
                 if t in (1, 2, 8):
                     for m in ext_fixed:
                         yield {"fl": fl, "side": side, "idx": idx, "m": m}
+                    if fl.startswith("tls13"):
+                        for spec in TYPED_FIXED:
+                            yield {"fl": fl, "side": side, "idx": idx,
+                                   "m": ["ext", "typed", 0, spec]}
